@@ -24,7 +24,9 @@ RULE = (
     "through GlsaDirSet, and each yielded restriction is matched against every installed package (versions "
     "{0.9,1.0,1.0-r1,1.0-r2,1.1,10.0,2.0} x slots {0,1} x keywords) of the entry's name and of a foreign name; the "
     "verdict is compared with: name matches and some vulnerable range holds and no unaffected range holds and arch "
-    "carried. A class is (part = shape of the entry, most special range kind involved (plain / r-op / revisionless r-op shortcut / glob), "
+    "carried. Twelve consecutive entries share one directory and one GlsaDirSet, and a recorded case carries the smallest "
+    "directory context (the entry alone, the entry plus one other, or the whole directory, order kept) in which it reproduces, "
+    "so order/history-dependent behaviour inside GlsaDirSet is replayed faithfully. A class is (part = shape of the entry, most special range kind involved (plain / r-op / revisionless r-op shortcut / glob), "
     "slot and arch involvement, whether any package is affected, outcome)."
 )
 ASSUMPTIONS = [
@@ -38,7 +40,9 @@ ASSUMPTIONS = [
 BOUNDS = {
     "quick": "P1: 1 vulnerable x 0-1 unaffected (54 x 55 entries) x 4 arch values x 42 packages, also via find_vulnerable_repo_pkgs; "
     "P2: all unordered pairs of vulnerable ranges x 0-1 unaffected x 14 packages; P3: 1 vulnerable x all unordered pairs of unaffected ranges; "
-    "P4: grouped iteration over pairs of advisories for one package from a 14-range sub-alphabet",
+    "P4: grouped iteration over pairs of advisories for one package from a 14-range sub-alphabet; "
+    "P6: for each of the 27 (operator, version) ranges, directories holding its slotted and unslotted spelling in both orders "
+    "(two consecutive entries / one entry, as vulnerable / unaffected / one of each). Entries are read 12 per directory by one GlsaDirSet",
     "thorough": "as quick plus P5: all unordered pairs of vulnerable x all unordered pairs of unaffected ranges x 14 packages",
 }
 
@@ -209,24 +213,6 @@ def observe_iter(dirpath):
     return out
 
 
-def judge_entry(entry, restricts, pkgs):
-    """compare one entry's yielded restriction(s) with the reference over pkgs ([name, ver, slot, kws]).
-    -> list of (pkg, observed, expected) disagreements, and the expected verdict vector"""
-    bad = []
-    vec = []
-    for pkg in pkgs:
-        exp = affected(entry, pkg)
-        vec.append(exp)
-        if not restricts:
-            obs = False
-        else:
-            o = _pkgobj(*pkg)
-            obs = any(bool(r.match(o)) for r in restricts)
-        if obs != exp:
-            bad.append((pkg, obs, exp))
-    return bad, vec
-
-
 def _msg(entry, pkg, obs, exp, how):
     return (
         f"{how}: package {pkg[0]}-{pkg[1]}:{pkg[2]} keywords={pkg[3]} reported {'affected' if obs else 'not affected'}, "
@@ -241,9 +227,34 @@ def pairs(alpha):
     return list(itertools.combinations(alpha, 2))
 
 
+# P6: the same (operator, version) range with and without a slot attribute inside one directory, in both orders
+BASES = list(dict.fromkeys((op, ver) for op, ver, _s in RANGES))
+
+
+def same_range_dirs(base):
+    """yield entry lists (one directory each): the slotted and the unslotted spelling of one range, both orders,
+    as vulnerable or as unaffected ranges, in two consecutive entries or inside one entry"""
+    op, ver = base
+    other = ["ge", "1.0", ""] if base == ("lt", "2.0") else ["lt", "2.0", ""]
+    for kind in ("vuln", "unaff"):
+        for s1, s2 in (("", "1"), ("1", "")):
+            r1, r2 = [op, ver, s1], [op, ver, s2]
+            if kind == "vuln":
+                yield [{"vuln": [r1], "unaff": [], "arch": None}, {"vuln": [r2], "unaff": [], "arch": None}]
+                yield [{"vuln": [r1, r2], "unaff": [], "arch": None}]
+            else:
+                yield [{"vuln": [other], "unaff": [r1], "arch": None}, {"vuln": [other], "unaff": [r2], "arch": None}]
+                yield [{"vuln": [other], "unaff": [r1, r2], "arch": None}]
+            # and the two spellings on opposite sides of one entry / of two consecutive entries
+            yield [{"vuln": [r1], "unaff": [r2], "arch": None}]
+            yield [{"vuln": [r1], "unaff": [], "arch": None}, {"vuln": [other], "unaff": [r2], "arch": None}]
+
+
 def tasks(tier):
     out = []
     nr = len(RANGES)
+    for i in range(len(BASES)):
+        out.append(("P6", tier, i))
     for i in range(nr):
         out.append(("P1", tier, i))
     pr = pairs(range(nr))
@@ -311,72 +322,211 @@ def classify(part, entry, vec, bad):
     return f"{part}:{_kind(ks)}{slot}{arch}:{verdict}:{'BAD' if bad else 'ok'}"
 
 
-def _case(entry, pkg, obs, how, msg, extra=None):
-    c = {"entry": entry, "pkg": pkg, "obs": obs, "how": how, "msg": msg}
-    if extra:
-        c.update(extra)
+
+def _pkgs_for_entry(e, pk, foreign=True):
+    out = [[e["name"], v, s, k] for v, s, k in pk]
+    if foreign:
+        out += [[FOREIGN, "1.0", "0", ["amd64"]], [FOREIGN, "1.0-r1", "1", ["amd64"]]]
+    return out
+
+
+def evaluate(dirpath, ctx):
+    """Re-create the directory described by ctx and evaluate it exactly the way work() does: the same files with the
+    same entries in the same order are read by ONE GlsaDirSet (so anything GlsaDirSet remembers between entries is
+    reproduced), every entry's restriction is matched against the same package list in the same order.
+    ctx = {"mode": "plain"|"grouped", "full": bool, "files": [[file name, [entry, ...]], ...]}
+    -> list over entries (of the first file) of list of [pkg, observed_iter|None, observed_repo|None]"""
+    files = {fn: ents for fn, ents in ctx["files"]}
+    write_files(dirpath, files)
+    pk = packages_for(ctx["full"])
+    entries = ctx["files"][0][1]
+    out = []
+    if ctx["mode"] == "grouped":
+        obs = _observe_repo(dirpath, [e["name"] for e in entries], pk, grouped=True)
+        for e in entries:
+            hit = obs.get(e["name"], set())
+            out.append([[pkg, None, (pkg[0], pkg[1], pkg[2], tuple(pkg[3])) in hit] for pkg in _pkgs_for_entry(e, pk, foreign=False)])
+        return out
+    got = observe_iter(dirpath)
+    repo_obs = None
+    if ctx["full"]:
+        repo_obs = _observe_repo(dirpath, [e["name"] for e in entries] + [FOREIGN], pk, grouped=False)
+    for e in entries:
+        rs = got.get(e["name"], [])
+        rows = []
+        for pkg in _pkgs_for_entry(e, pk):
+            if not rs:
+                o = False
+            else:
+                obj = _pkgobj(*pkg)
+                o = any(bool(r.match(obj)) for r in rs)
+            r = None
+            if repo_obs is not None:
+                r = (pkg[0], pkg[1], pkg[2], tuple(pkg[3])) in repo_obs.get(e["name"], set())
+            rows.append([pkg, o, r])
+        out.append(rows)
+    return out
+
+
+def _expected_ctx(ctx, idx, pkg, defects=()):
+    exp = False
+    for _fn, ents in ctx["files"]:
+        exp = exp or affected(ents[idx], pkg, defects)
+    return exp
+
+
+def _pick(rows, pkg, how):
+    for p, o, r in rows:
+        if p == pkg:
+            return o if how == "iter" else r
+    raise AssertionError(f"harness: package {pkg} not part of the evaluated context")
+
+
+def _sub_ctx(ctx, keep):
+    return {"mode": ctx["mode"], "full": ctx["full"], "files": [[fn, [ents[i] for i in keep]] for fn, ents in ctx["files"]]}
+
+
+def shrink(dirpath, ctx, idx, pkg, how, obs):
+    """smallest sub-context (the entry alone; the entry plus one other entry, original order kept; the whole batch)
+    in which the recorded observation reproduces -> (ctx, idx)"""
+    n = len(ctx["files"][0][1])
+    cands = [[idx]] + [sorted([j, idx]) for j in range(n) if j != idx]
+    for keep in cands:
+        sub = _sub_ctx(ctx, keep)
+        k = keep.index(idx)
+        if _pick(evaluate(dirpath, sub)[k], pkg, how) == obs:
+            return sub, k
+    return ctx, idx
+
+
+HOW = {"iter": "GlsaDirSet restriction", "repo": "find_vulnerable_repo_pkgs", "grouped": "grouped find_vulnerable_repo_pkgs"}
+
+
+def _mkcase(ctx, idx, pkg, how, obs, exp):
+    e = ctx["files"][0][1][idx]
+    c = {"entry": e, "pkg": pkg, "obs": obs, "how": how, "ctx": ctx, "idx": idx}
+    text = HOW[how]
+    if ctx["mode"] == "grouped":
+        c["entry2"] = ctx["files"][1][1][idx]
+        text += f" (second advisory vulnerable={c['entry2']['vuln']} unaffected={c['entry2']['unaff']})"
+    others = len(ctx["files"][0][1]) - 1
+    if others:
+        text += f" [with {others} other entr{'y' if others == 1 else 'ies'} read earlier/later by the same GlsaDirSet, see ctx]"
+    c["msg"] = _msg(e, pkg, obs, exp, text)
     return c
 
 
-def work(task):
+MAX_UNKNOWN = 40
+MAX_KNOWN = 8
+
+
+class _Collector:
+    """keeps violations not explained by a listed known finding ahead of (and apart from) the explained ones, so the
+    runner's per-task cap can never hide an unknown violation behind known ones."""
+
+    def __init__(self):
+        self.unknown = []
+        self.known = []
+
+    def add(self, ctx, idx, pkg, how, obs, exp):
+        light = {"entry": ctx["files"][0][1][idx], "pkg": pkg, "obs": obs, "how": how}
+        if ctx["mode"] == "grouped":
+            light["entry2"] = ctx["files"][1][1][idx]
+        listed = _listed_findings()
+        is_known = any(CLASSIFIERS[k](light) for k in listed if k in CLASSIFIERS)
+        dest, cap = (self.known, MAX_KNOWN) if is_known else (self.unknown, MAX_UNKNOWN)
+        if len(dest) < cap:
+            dest.append((ctx, idx, pkg, how, obs, exp))
+
+    def cases(self, dirpath):
+        out = []
+        for ctx, idx, pkg, how, obs, exp in self.unknown + self.known:
+            sctx, sidx = shrink(dirpath, ctx, idx, pkg, how, obs)
+            out.append(_mkcase(sctx, sidx, pkg, how, obs, exp))
+        return out
+
+
+def _run_ctx(dirpath, ctx, part, coll, classes, samples):
+    """evaluate one directory, judge every entry x package -> number of evaluations"""
+    res = evaluate(dirpath, ctx)
+    evals = 0
+    for idx, rows in enumerate(res):
+        e = ctx["files"][0][1][idx]
+        vec = []
+        nbad = 0
+        for pkg, o, r in rows:
+            exp = _expected_ctx(ctx, idx, pkg)
+            vec.append(exp)
+            for how, got in (("iter", o), ("grouped" if ctx["mode"] == "grouped" else "repo", r)):
+                if got is None:
+                    continue
+                evals += 1
+                if got != exp:
+                    nbad += 1
+                    if nbad <= 6:
+                        coll.add(ctx, idx, pkg, how, got, exp)
+        if ctx["mode"] == "grouped":
+            ks = _kinds(e) | _kinds(ctx["files"][1][1][idx])
+            k = f"P4-grouped:{_kind(ks)}:{'some-affected' if any(vec) else 'none-affected'}:{'BAD' if nbad else 'ok'}"
+        else:
+            k = classify(part, e, vec, bool(nbad))
+        classes[k] = classes.get(k, 0) + 1
+        if not samples and not nbad and 0 < sum(vec) < len(vec) and e["unaff"]:
+            samples.append({"entry": e, "affected": [f"{p[0][1]}:{p[0][2]}" for p, x in zip(rows, vec) if x]})
+    return evals
+
+
+def _sub_entries():
+    ents = []
+    for v in SUB:
+        for u in [None] + SUB:
+            ents.append({"vuln": [list(v)], "unaff": [] if u is None else [list(u)], "arch": None})
+    return ents
+
+
+def contexts(task):
+    """yield (part, ctx) for a task, in a fixed order"""
     kind = task[0]
+    if kind == "P4":
+        ents = _sub_entries()
+        per = len(SUB) + 1
+        first = ents[task[2] * per : (task[2] + 1) * per]
+        todo = [(a, b) for a in first for b in ents]
+        for lo in range(0, len(todo), BATCH):
+            f1, f2 = [], []
+            for i, (a, b) in enumerate(todo[lo : lo + BATCH]):
+                f1.append(dict(a, name=NAMES[i]))
+                f2.append(dict(b, name=NAMES[i]))
+            yield "P4", {"mode": "grouped", "full": False, "files": [["glsa-200001-01.xml", f1], ["glsa-200001-02.xml", f2]]}
+        return
+    if kind == "P6":
+        for ents in same_range_dirs(BASES[task[2]]):
+            ents = [dict(e, name=NAMES[i]) for i, e in enumerate(ents)]
+            yield "P6", {"mode": "plain", "full": False, "files": [["glsa-200001-01.xml", ents]]}
+        return
+    full = kind == "P1"
+    batch = []
+    for part, e in gen(task):
+        batch.append(dict(e, name=NAMES[len(batch)]))
+        if len(batch) == BATCH:
+            yield part, {"mode": "plain", "full": full, "files": [["glsa-200001-01.xml", batch]]}
+            batch = []
+    if batch:
+        yield kind, {"mode": "plain", "full": full, "files": [["glsa-200001-01.xml", batch]]}
+
+
+def work(task):
     root = tempfile.mkdtemp(dir="/dev/shm", prefix=f"verif-{PROPERTY}-{os.getpid()}-")
     dirpath = os.path.join(root, "glsa")
     os.mkdir(dirpath)
     evals = 0
     classes = {}
-    viol = []
     samples = []
+    coll = _Collector()
     try:
-        if kind == "P4":
-            return _work_grouped(task, dirpath)
-        full = kind == "P1"
-        pk = packages_for(full)
-        batch = []
-
-        def flush():
-            nonlocal evals
-            if not batch:
-                return
-            entries = []
-            for i, (part, e) in enumerate(batch):
-                e = dict(e)
-                e["name"] = NAMES[i]
-                entries.append((part, e))
-            write_files(dirpath, {"glsa-200001-01.xml": [e for _p, e in entries]})
-            got = observe_iter(dirpath)
-            repo_obs = None
-            if full:
-                repo_obs = _observe_repo(dirpath, [e["name"] for _p, e in entries] + [FOREIGN], pk, grouped=False)
-            for part, e in entries:
-                pkgs = [[e["name"], v, s, k] for v, s, k in pk] + [[FOREIGN, "1.0", "0", ["amd64"]], [FOREIGN, "1.0-r1", "1", ["amd64"]]]
-                rs = got.get(e["name"], [])
-                bad, vec = judge_entry(e, rs, pkgs)
-                evals += len(pkgs)
-                for pkg, obs, exp in bad[:6]:
-                    viol.append(_case(e, pkg, obs, "iter", _msg(e, pkg, obs, exp, "GlsaDirSet restriction")))
-                rbad = []
-                if repo_obs is not None:
-                    hit = repo_obs.get(e["name"], set())
-                    for pkg in pkgs:
-                        exp = affected(e, pkg)
-                        obs = (pkg[0], pkg[1], pkg[2], tuple(pkg[3])) in hit
-                        evals += 1
-                        if obs != exp:
-                            rbad.append(pkg)
-                            if len(rbad) <= 3 and not bad:
-                                viol.append(_case(e, pkg, obs, "repo", _msg(e, pkg, obs, exp, "find_vulnerable_repo_pkgs")))
-                k = classify(part, e, vec, bool(bad or rbad))
-                classes[k] = classes.get(k, 0) + 1
-                if not samples and not bad and 0 < sum(vec) < len(vec) and e["unaff"]:
-                    samples.append({"entry": e, "affected": [f"{p[1]}:{p[2]}" for p, x in zip(pkgs, vec) if x]})
-            batch.clear()
-
-        for part, e in gen(task):
-            batch.append((part, e))
-            if len(batch) == BATCH:
-                flush()
-        flush()
+        for part, ctx in contexts(task):
+            evals += _run_ctx(dirpath, ctx, part, coll, classes, samples)
+        viol = coll.cases(dirpath)
     finally:
         shutil.rmtree(root, ignore_errors=True)
     return {"evals": evals, "classes": classes, "viol": viol, "samples": samples}
@@ -401,84 +551,16 @@ def _observe_repo(dirpath, names, pk, grouped):
     return out
 
 
-def _sub_entries():
-    ents = []
-    for v in SUB:
-        for u in [None] + SUB:
-            ents.append({"vuln": [list(v)], "unaff": [] if u is None else [list(u)], "arch": None})
-    return ents
-
-
-def _work_grouped(task, dirpath):
-    """P4: two advisories (two files) for the same package; grouped iteration must flag the union."""
-    ents = _sub_entries()
-    per = len(SUB) + 1
-    first = ents[task[2] * per : (task[2] + 1) * per]
-    pk = packages_for(False)
-    evals = 0
-    classes = {}
-    viol = []
-    samples = []
-    todo = [(a, b) for a in first for b in ents]
-    for lo in range(0, len(todo), BATCH):
-        chunk = todo[lo : lo + BATCH]
-        f1, f2 = [], []
-        for i, (a, b) in enumerate(chunk):
-            a, b = dict(a, name=NAMES[i]), dict(b, name=NAMES[i])
-            f1.append(a)
-            f2.append(b)
-        write_files(dirpath, {"glsa-200001-01.xml": f1, "glsa-200001-02.xml": f2})
-        obs = _observe_repo(dirpath, [e["name"] for e in f1], pk, grouped=True)
-        for a, b in zip(f1, f2):
-            pkgs = [[a["name"], v, s, k] for v, s, k in pk]
-            bad = False
-            vec = []
-            for pkg in pkgs:
-                exp = affected(a, pkg) or affected(b, pkg)
-                vec.append(exp)
-                got = (pkg[0], pkg[1], pkg[2], tuple(pkg[3])) in obs.get(a["name"], set())
-                evals += 1
-                if got != exp:
-                    if not bad:
-                        viol.append(
-                            {
-                                "entry": a,
-                                "entry2": b,
-                                "pkg": pkg,
-                                "obs": got,
-                                "how": "grouped",
-                                "msg": _msg(a, pkg, got, exp, f"grouped find_vulnerable_repo_pkgs (second advisory vulnerable={b['vuln']} unaffected={b['unaff']})"),
-                            }
-                        )
-                    bad = True
-            ks = _kinds(a) | _kinds(b)
-            k = f"P4-grouped:{_kind(ks)}:{'some-affected' if any(vec) else 'none-affected'}:{'BAD' if bad else 'ok'}"
-            classes[k] = classes.get(k, 0) + 1
-    return {"evals": evals, "classes": classes, "viol": viol, "samples": samples}
-
-
-def _replay_obs(case):
-    """re-observe exactly one (entry[, entry2], pkg) -> observed bool"""
-    root = tempfile.mkdtemp(dir="/dev/shm", prefix=f"verif-{PROPERTY}-{os.getpid()}-")
-    try:
-        dirpath = os.path.join(root, "glsa")
-        os.mkdir(dirpath)
-        e = case["entry"]
-        pkg = case["pkg"]
-        how = case["how"]
-        files = {"glsa-200001-01.xml": [e]}
-        if how == "grouped":
-            files["glsa-200001-02.xml"] = [case["entry2"]]
-        write_files(dirpath, files)
-        if how == "iter":
-            rs = observe_iter(dirpath).get(e["name"], [])
-            o = _pkgobj(*pkg)
-            return any(bool(r.match(o)) for r in rs)
-        pk = [(pkg[1], pkg[2], pkg[3])]
-        obs = _observe_repo(dirpath, [pkg[0]], pk, grouped=(how == "grouped"))
-        return (pkg[0], pkg[1], pkg[2], tuple(pkg[3])) in obs.get(e["name"], set())
-    finally:
-        shutil.rmtree(root, ignore_errors=True)
+def _case_ctx(case):
+    """the evaluation context of a recorded case; cases recorded before contexts existed (known_findings examples)
+    describe a directory holding just their own entry"""
+    if "ctx" in case:
+        return case["ctx"], case["idx"]
+    files = [["glsa-200001-01.xml", [case["entry"]]]]
+    if case["how"] == "grouped":
+        files.append(["glsa-200001-02.xml", [case["entry2"]]])
+    full = case["how"] == "repo" or tuple(case["pkg"][3]) != PKEYWORDS[0]
+    return {"mode": "grouped" if case["how"] == "grouped" else "plain", "full": full, "files": files}, 0
 
 
 def _expected(case, defects=()):
@@ -489,11 +571,17 @@ def _expected(case, defects=()):
 
 
 def replay(case):
-    obs = _replay_obs(case)
-    exp = _expected(case)
+    ctx, idx = _case_ctx(case)
+    root = tempfile.mkdtemp(dir="/dev/shm", prefix=f"verif-{PROPERTY}-{os.getpid()}-")
+    try:
+        dirpath = os.path.join(root, "glsa")
+        os.mkdir(dirpath)
+        obs = _pick(evaluate(dirpath, ctx)[idx], case["pkg"], case["how"])
+    finally:
+        shutil.rmtree(root, ignore_errors=True)
+    exp = _expected_ctx(ctx, idx, case["pkg"])
     if obs != exp:
-        how = {"iter": "GlsaDirSet restriction", "repo": "find_vulnerable_repo_pkgs", "grouped": "grouped find_vulnerable_repo_pkgs"}[case["how"]]
-        return [_msg(case["entry"], case["pkg"], obs, exp, how)]
+        return [_mkcase(ctx, idx, case["pkg"], case["how"], obs, exp)["msg"]]
     return []
 
 
